@@ -1,10 +1,11 @@
+import TplModel.Props.Loader
 import TplModel.Props.RenderProps
 import TplModel.Proofs.ScanConcat
 import TplModel.Proofs.TreeProofs
 import TplModel.Props.C05refine
 /-! # C01 — markup without directives is reproduced unchanged
 
-OBLIGATIONS: HS.scan_concat, TB.tree_preorder, TB.build_total, RN.execute_refines, RN.Props.render_plain
+OBLIGATIONS: HS.scan_concat, TB.tree_preorder, TB.build_total, RN.execute_refines, RN.Props.render_plain, EN.render_identity, EN.buildTree_preorder, EN.execute_refines_loaded
 
 * `HS.scan_concat`: for every configuration and every input, the values of the scanned tokens concatenate back to
   the source (first consequence named by the property).
